@@ -127,11 +127,32 @@ func checkC15() fw.Check {
 					reqs = append(reqs, c15Req{proto: proto, q: 3, e: 1, failRuns: []int{1, 2}, fetcher: "none", reach: false, cancelAt: ca})
 				}
 			}
+			// many participants, all or most of them failing: every single failure is exposed, however many there are
+			seq := func(n int) []int {
+				var l []int
+				for i := 0; i < n; i++ {
+					l = append(l, i)
+				}
+				return l
+			}
+			for _, proto := range []string{"udp", "tcp"} {
+				reqs = append(reqs, c15Req{proto: proto, q: 8, e: 14, failRuns: seq(8), failE2e: seq(14), fetcher: "ok", reach: true, cancelAt: -1})
+				reqs = append(reqs, c15Req{proto: proto, q: 20, e: 0, failRuns: seq(19), fetcher: "none", reach: true, cancelAt: -1})
+			}
 			var cases []fw.Case
 			for i, rq := range reqs {
 				rq := rq
 				id := fmt.Sprintf("C15/%d/%s/q%d-e%d-f%d-%d", i, rq.proto, rq.q, rq.e, len(rq.failRuns), len(rq.failE2e))
 				cases = append(cases, fw.Case{ID: id, Bubble: true, Run: func(c *fw.Ctx) { runC15Case(c, id, rq) }})
+			}
+			// public-IP failure while the caller's context ends (the udp and tcp runs never look at the context)
+			for _, proto := range []string{"udp", "tcp", "icmp"} {
+				for _, ca := range []time.Duration{0, 150 * time.Millisecond, 900 * time.Millisecond, 2500 * time.Millisecond} {
+					proto, ca := proto, ca
+					id := fmt.Sprintf("C15/fetcher-twin/%s/cancel%v", proto, ca)
+					rq := c15Req{proto: proto, q: 2, e: 2, reach: true, cancelAt: ca}
+					cases = append(cases, fw.Case{ID: id, Bubble: true, Run: func(c *fw.Ctx) { runC15FetcherTwin(c, id, rq) }})
+				}
 			}
 			// through the HTTP handler: explicit counts, including an explicit 0 of either kind, are the numbers of path
 			// runs and end-to-end probes that go on the wire and come back in the document
@@ -161,7 +182,26 @@ func (f *flowSentinel) Error() string {
 	return fmt.Sprintf("verif-injected failure of flow %d", f.k)
 }
 
-func runC15Case(c *fw.Ctx, id string, rq c15Req) {
+func runC15Case(c *fw.Ctx, id string, rq c15Req) { runC15CaseR(c, id, rq) }
+
+// runC15FetcherTwin: the same request - caller cancellation included - once with a public-IP fetcher that answers and
+// once with one that fails. Whatever the request does under cancellation, the fetcher's failure must not be what
+// decides it: both must succeed or both must fail.
+func runC15FetcherTwin(c *fw.Ctx, id string, rq c15Req) {
+	rq.fetcher = "ok"
+	ran1, err1 := runC15CaseR(c, id+"/fetcher-ok", rq)
+	rq.fetcher = "error"
+	ran2, err2 := runC15CaseR(c, id+"/fetcher-error", rq)
+	if !ran1 || !ran2 {
+		return
+	}
+	c.Count("fetcher_twins", 1)
+	if (err1 == nil) != (err2 == nil) {
+		c.Violate("C15", "spurious-failure/fetcher-error-under-cancel", fmt.Sprintf("%s [%s]: with a working public-IP fetcher the request returned err=%v, with a failing one err=%v: the public-IP failure decided the outcome", id, rq.String(), err1, err2), nil)
+	}
+}
+
+func runC15CaseR(c *fw.Ctx, id string, rq c15Req) (ran bool, rerrOut error) {
 	resetProcessState()
 	v := map[string]refmatch.Variant{"udp": refmatch.VariantByName("udp4"), "icmp": refmatch.VariantByName("icmp4"), "tcp": refmatch.VariantByName("syn")}[rq.proto]
 	target := drive.TargetFor(v, c.Worker)
@@ -250,6 +290,7 @@ func runC15Case(c *fw.Ctx, id string, rq c15Req) {
 		defer t.Stop()
 	}
 	out, rerr := env.run(ctx)
+	ran, rerrOut = true, rerr
 	tag := id + " [" + rq.String() + "]"
 	detail := map[string]any{"request": rq.String(), "roles": fmt.Sprint(roles), "error": fmt.Sprint(rerr)}
 	env.monitors(id)
@@ -344,6 +385,7 @@ func runC15Case(c *fw.Ctx, id string, rq c15Req) {
 	}
 	c.Count("successful_requests", 1)
 	c.Sample(map[string]any{"request": rq.String(), "runs": len(out.Traceroute.Runs), "rtts": out.E2eProbe.RTTs, "roles": fmt.Sprint(roles)})
+	return
 }
 
 func failKinds(rq c15Req) string {
